@@ -1,5 +1,5 @@
 """Common core of C05 / C06 / C10 / C11: "accepted => verified, over everything the spec signs" (DESIGN.md section 3)."""
-from .. import flow, inline, paths
+from .. import flow, guards, inline, paths
 from ..facts import callee_def, short
 from ..report import AnchorMissing
 from ..roles import Roles
@@ -381,6 +381,55 @@ def presence_edges(db, b, what):
                 o = flow.outcomes_of_call(b, bi)
                 edges |= o.get("Ok") | o.get("Some")
     return edges
+
+
+def _built_from_success_of(x, site, pred):
+    """the block `site` is `<value>.map(Variant)` whose receiver is, through payload-preserving adaptors (`.ok()`, `.map_err(..)`), the result
+    of a call satisfying pred: the variant is built only if that call succeeded"""
+    t = x.blocks[site]["term"]
+    if t["k"] != "call" or short(callee_def(t)) != "map" or not t["args"]:
+        return False
+    a = t["args"][0]
+    for _ in range(8):
+        p = flow.op_place(a)
+        if p is None or p["proj"]:
+            return False
+        df = flow.single_def(x, p["l"])
+        if df is None:
+            return False
+        if df["kind"] == "assign" and df["rv"]["k"] == "use":
+            a = df["rv"]["ops"][0]
+            continue
+        if df["kind"] != "call":
+            return False
+        d = callee_def(df["term"])
+        if pred(d):
+            return True
+        if d in flow.PAYLOAD_PRESERVING and df["term"]["args"]:
+            a = df["term"]["args"][0]
+            continue
+        return False
+    return False
+
+
+def selected_by(x, bi, edges, success_of=None):
+    """block bi runs only when one of `edges` (the outcomes of a presence / parse test) was taken: directly, or because bi sits in the arm
+    of a stored decision (`match self.source()? { Kind::A => .. }`) every construction of which lies behind those edges (or, with
+    success_of, is `.map(Variant)` applied to the successful result of that call)"""
+    if edges and flow.must_pass(x, [bi], edges):
+        return True
+    if not edges and success_of is None:
+        return False
+    for f in guards.dominating_facts(x, bi):
+        if f[0] != "enum" or f[3] is None or not guards._is_plain_enum(f[1]):
+            continue
+        wrap = guards._wrapper_depth(f[3][1])
+        if wrap is None:
+            continue
+        sites = guards._enum_def_sites(x, f[3][0], set(f[2]), wrap, f[1])
+        if sites and all((bool(edges) and flow.must_pass(x, [sb], edges)) or (success_of is not None and _built_from_success_of(x, sb, success_of)) for sb in sites):
+            return True
+    return False
 
 
 def rule_v3_check(chk, db):
